@@ -229,6 +229,13 @@ pub struct World {
     /// history of the export path before the export under test
     #[serde(default)]
     pub prior: Vec<Prior>,
+    /// file name under /SIMDISK/ as raw bytes (None = "circuit.bristol.txt"): spaces, non-ASCII,
+    /// NOT valid UTF-8, very long, no extension, hidden
+    #[serde(default)]
+    pub file_name: Option<Vec<u8>>,
+    /// Some(errno): while exporting and importing, writes to stdout / stderr fail with this errno
+    #[serde(default)]
+    pub stdio_broken: Option<i32>,
     /// history of the *process*: worlds the same thread ran through earlier (a long-lived
     /// exporter/importer). Their own verdicts are not judged here.
     #[serde(default)]
@@ -535,8 +542,8 @@ fn run_world_inner(w: &World) -> Obs {
     }
     let mut obs = Obs::default();
     seams::install_plan(Plan::default());
-    let path = seams::sim_path("circuit.bristol.txt");
-    let pstr = "/SIMDISK/circuit.bristol.txt";
+    let (path, pkey) = seams::sim_path_bytes(w.file_name.as_deref().unwrap_or(b"circuit.bristol.txt"));
+    let pstr: &str = &pkey;
     let refpath = seams::sim_path("reference.txt");
     seams::disk_remove(pstr);
     let seedtag = tag(w.program.as_ref().map(|p| p.src.as_str()).unwrap_or("raw"));
@@ -684,7 +691,9 @@ fn run_world_inner(w: &World) -> Obs {
         } else {
             seams::install_plan(w.export_plan.clone());
             let _ = seams::take_fired();
+            seams::break_stdio(w.stdio_broken);
             let r = do_export(c, &prog.src, &path, w.via_lib);
+            seams::break_stdio(None);
             obs.executions += 1;
             let fired = seams::take_fired();
             for (k, v) in &fired {
@@ -769,7 +778,9 @@ fn run_world_inner(w: &World) -> Obs {
     // ---------------- import under the read-side fault plan
     seams::install_plan(w.import_plan.clone());
     let _ = seams::take_fired();
+    seams::break_stdio(w.stdio_broken);
     let r = do_import(&path, w.via_lib);
+    seams::break_stdio(None);
     obs.executions += 1;
     let fired = seams::take_fired();
     for (k, v) in &fired {
@@ -1032,6 +1043,18 @@ fn draw_priors(plan: &CasePlan, p: &mut Prng) -> Vec<Prior> {
         .collect()
 }
 
+const FILE_NAMES: &[&[u8]] = &[
+    b"circuit.bristol.txt",
+    b"with space and (parens).txt",
+    "\u{fc}n\u{ef}c\u{f6}d\u{e9}-\u{7535}\u{8def}.txt".as_bytes(),
+    b"gr\xf6\xdfe.txt",
+    b"\xff\xfe\x80.bristol",
+    b"no_extension",
+    b".hidden",
+    b"a.b.c.d.e.txt",
+    b"xxxxxxxxxxxxxxxxxxxxxxxxxxxxxxxxxxxxxxxxxxxxxxxxxxxxxxxxxxxxxxxxxxxxxxxxxxxxxxxxxxxxxxxxxxxxxxxxxxxxxxxxxxxxxxxxxxxxxxxxxxxxxxxxxxxxxxxxxxxxxxxxxxxxxxxxxxxxxxxxxxxxxxxxxxxxxxxxxxxxxxxxxxxxxxxxxxxxxxxxxxxxxxxxxxxx.txt",
+];
+
 const TOKENS: &[&str] = &[
     "0", "1", "2", "3", "9", "10", "161", "4294967295", "4294967296", "18446744073709551615", "18446744073709551616",
     "99999999999999999999999", "4000000000000", "-1", "+1", "00", "XOR", "AND", "INV", "NAND", "EQ", "EQW", "MAND", "xor", "", "a", "1e3",
@@ -1144,7 +1167,7 @@ static NSYNC_OF_LAST_REFERENCE: std::sync::atomic::AtomicU64 = std::sync::atomic
 
 fn reference_export(prog: &ProgSpec, dedup: bool, keys: Keys) -> Option<(Vec<u8>, u64, u64)> {
     // fault-free export to learn the size of the search space (write count, bytes)
-    let w = World { program: Some(prog.clone()), dedup, keys, export_plan: Plan::default(), corruptions: vec![], import_plan: Plan::default(), via_lib: false, s5: None, raw_text: None, prior: vec![], earlier: vec![] };
+    let w = World { program: Some(prog.clone()), dedup, keys, export_plan: Plan::default(), corruptions: vec![], import_plan: Plan::default(), via_lib: false, s5: None, raw_text: None, prior: vec![], earlier: vec![], file_name: None, stdio_broken: None };
     seams::reset_world();
     let w2 = w.clone();
     run_party(keys, move || {
@@ -1183,7 +1206,16 @@ pub fn make_world(plan: &CasePlan, seed: u64, idx: u64) -> (World, &'static str,
         raw_text: None,
         prior: vec![],
         earlier: vec![],
+        file_name: None,
+        stdio_broken: None,
     };
+    // the file's name and the state of the process's stdout/stderr are dimensions of every family
+    if family != "s5" && p.chance(1, 3) {
+        w.file_name = Some(p.pick(FILE_NAMES).to_vec());
+    }
+    if p.chance(1, 5) {
+        w.stdio_broken = Some(*p.pick(&[libc::EPIPE, libc::ENOSPC, libc::EIO, libc::EBADF]));
+    }
     match family {
         "seeded" => {
             let prog = draw_subject(plan, &mut p, true);
@@ -1435,6 +1467,16 @@ pub fn minimise(w: &World, f: &Finding, history: &[World]) -> (World, Finding) {
         cand.via_lib = false;
         try_world(cand, &mut best, &mut bf);
     }
+    if best.file_name.is_some() {
+        let mut cand = best.clone();
+        cand.file_name = None;
+        try_world(cand, &mut best, &mut bf);
+    }
+    if best.stdio_broken.is_some() {
+        let mut cand = best.clone();
+        cand.stdio_broken = None;
+        try_world(cand, &mut best, &mut bf);
+    }
     // importer-only cases: materialise the damaged image as raw text and ddmin its lines
     if best.raw_text.is_none() && !best.corruptions.is_empty() && best.s5.is_none() && class == "import_panicked" {
         // compute the image by replaying export + corruptions without importing faults
@@ -1583,6 +1625,30 @@ fn run_sweep(base: &World, acc: &mut Acc) {
         }
     };
     go(base.clone(), acc);
+    // every file name of the pool, and every way the process's stdout/stderr can be broken
+    for name in FILE_NAMES {
+        let mut w = base.clone();
+        w.file_name = Some(name.to_vec());
+        go(w, acc);
+    }
+    for e in [libc::EPIPE, libc::ENOSPC, libc::EIO, libc::EBADF] {
+        let mut w = base.clone();
+        w.stdio_broken = Some(e);
+        go(w.clone(), acc);
+        // ... also while importing damaged files (warnings on stderr are a classic)
+        for len in [bytes.len() / 2, bytes.len().saturating_sub(1)] {
+            let mut w2 = w.clone();
+            w2.corruptions = vec![Corruption::Truncate { len }];
+            go(w2, acc);
+        }
+        for line in 0..6usize {
+            let mut w2 = w.clone();
+            w2.corruptions = vec![Corruption::DelLine { line }];
+            go(w2.clone(), acc);
+            w2.corruptions = vec![Corruption::DupLine { line }];
+            go(w2, acc);
+        }
+    }
     // the path's history: old contents / an earlier, larger export at the same path
     for prior in [
         Prior::Bytes(vec![b'7'; bytes.len() * 2 + 64]),
@@ -1763,6 +1829,7 @@ pub fn run_case(plan: &CasePlan, seed: u64, idx: u64) -> CaseResult {
         "program": w.program.as_ref().map(|p| p.src.clone()),
         "export_plan": w.export_plan, "corruptions": w.corruptions, "import_plan": w.import_plan,
         "via_lib": w.via_lib, "s5": w.s5.is_some(), "prior_ops": w.prior.len(),
+        "file_name": w.file_name.as_ref().map(|n| String::from_utf8_lossy(n).to_string()), "stdio_broken": w.stdio_broken,
         "raw_text": w.raw_text.as_ref().map(|t| String::from_utf8_lossy(t).chars().take(200).collect::<String>()),
         "outcome": sample_summary,
     });
